@@ -47,7 +47,9 @@ Init ==
               vec = Vec("slice", v, P(BoundV(a), BoundV(b)), FilterRef("slice", v, P(BoundV(a), BoundV(b)))))
        [] Family = "pad" -> (
             \E f \in {"center", "ljust", "rjust"}, n \in 0..12, w \in (0 - 6)..20 :
-              vec = Vec(f, S(SubSeq(Base12, 1, n)), I(w), FilterRef(f, S(SubSeq(Base12, 1, n)), I(w))))
+              \/ vec = Vec(f, S(SubSeq(Base12, 1, n)), I(w), FilterRef(f, S(SubSeq(Base12, 1, n)), I(w)))
+              \* numbers are padded as the text they are written as
+              \/ (n <= 3 /\ w <= 8 /\ vec = Vec(f, I(<<5, 42, 0 - 7, 1234>>[n + 1]), I(w), FilterRef(f, I(<<5, 42, 0 - 7, 1234>>[n + 1]), I(w)))))
        [] Family = "trunc" -> (
             \/ \E n \in 0..12, w \in (0 - 1)..14 : vec = Vec("truncatechars", S(SubSeq(Base12, 1, n)), I(w), FilterRef("truncatechars", S(SubSeq(Base12, 1, n)), I(w)))
             \/ \E t \in 1..Len(Texts), w \in (0 - 1)..6, f \in {"truncatewords", "wordwrap"} : vec = Vec(f, S(Texts[t]), I(w), FilterRef(f, S(Texts[t]), I(w))))
@@ -56,7 +58,7 @@ Init ==
                  vec = Vec(f, S(Texts[t]), Nil, FilterRef(f, S(Texts[t]), Nil))
             \/ \E q \in 1..Len(Seqs), f \in {"first", "last", "length"} : vec = Vec(f, Seqs[q], Nil, FilterRef(f, Seqs[q], Nil))
             \/ \E q \in 1..Len(Seqs), n \in 0..4 : vec = Vec("length_is", Seqs[q], I(n), FilterRef("length_is", Seqs[q], I(n)))
-            \/ \E q \in 1..5, sep \in {<<",">>, <<"-", "-">>, <<"EACUTE">>} : vec = Vec("join", Seqs[q], S(sep), FilterRef("join", Seqs[q], S(sep)))
+            \/ \E q \in 1..5, sep \in {<<",">>, <<"-", "-">>, <<"EACUTE">>, <<>>} : vec = Vec("join", Seqs[q], S(sep), FilterRef("join", Seqs[q], S(sep)))
             \/ \E t \in 1..Len(Texts), sub \in {<<"a", " ">>, <<" ", " ">>, <<",", ",">>, <<"b", " ", "c">>, <<>>, <<"EACUTE", "b">>} :
                  vec = Vec("cut", S(Texts[t]), S(sub), FilterRef("cut", S(Texts[t]), S(sub)))
             \/ \E t \in 1..Len(Texts), c \in {",", " ", "NL", "a", "EACUTE"} :
@@ -71,6 +73,7 @@ Init ==
             \/ \E a \in {0, 5, 42, 907, 1234, 0 - 7, 0 - 42, 0 - 907, 0 - 1200}, b \in (0 - 1)..6 :
                   /\ ~(a < 0 /\ b = Len(IntStr(0 - a)) + 1)       \* (the position of the sign)
                   /\ vec = Vec("get_digit", I(a), I(b), FilterRef("get_digit", I(a), I(b)))
+            \/ \E b \in 1..4 : vec = Vec("get_digit", S(<<"a", "b", "c">>), I(b), S(<<"a", "b", "c">>))      \* what is no number is handed back
             \/ \E a \in 1..Len(Nums), p \in 1..Len(PlArgs) : vec = Vec("pluralize", Nums[a], PlArgs[p], FilterRef("pluralize", Nums[a], PlArgs[p]))
             \/ \E a \in 1..Len(Nums), p \in 1..Len(YnArgs) : vec = Vec("yesno", Nums[a], YnArgs[p], FilterRef("yesno", Nums[a], YnArgs[p])))
        [] Family = "float" -> (
@@ -113,7 +116,7 @@ Init ==
             \/ \E i \in {1, 2}, l \in 1..Len(Layouts), f \in {"date", "time"} : vec = Vec(f, Instant(i), LayoutArg(Layouts[l]), DateFormat(Instant(i), Layouts[l]))
             \/ \E q \in 1..Len(Nums), f \in {"date", "time"} : vec = Vec(f, Nums[q], LayoutArg(Layouts[1]), DateFormat(Nums[q], Layouts[1])))
        [] Family = "widthratio" -> (
-            \E v \in (0 - 12)..12, m \in 1..12, w \in {10, 100, 7, 0 - 8}, form \in {"widthratio", "widthratio_as"} :
+            \E v \in (0 - 12)..12, m \in 0..12, w \in {10, 100, 7, 0 - 8}, form \in {"widthratio", "widthratio_as"} :
               LET r == WidthRatio(v, m, w) IN vec = Vec(form, I(v), P(I(m), I(w)), P(I(r.lo), I(r.hi))))
        [] Family = "escape" -> (\E w \in StrsUpTo(EscAlpha, MaxLen) :
                                   \/ vec = Vec("escape", S(Mk(EscAlpha, w)), Nil, S(Escape(Mk(EscAlpha, w))))
@@ -139,12 +142,12 @@ Next == go = FALSE /\ go' = TRUE /\ UNCHANGED vec
 Shapes ==
   go => CASE vec.f = "slice" -> (IF vec.in.k = "str" THEN IsSubSeqContig(vec.out.s, vec.in.s) ELSE IsSubSeqContig(vec.out.l, vec.in.l))
           [] vec.f \in {"center", "ljust", "rjust"} ->
-               /\ Len(vec.out.s) = Max2(Len(vec.in.s), IntOf(vec.arg))
-               /\ IsSubSeqContig(vec.in.s, vec.out.s)
-               /\ Cardinality({i \in 1..Len(vec.out.s) : vec.out.s[i] = " "}) - Cardinality({i \in 1..Len(vec.in.s) : vec.in.s[i] = " "})
-                    = Max2(IntOf(vec.arg) - Len(vec.in.s), 0)
-               /\ (vec.f = "ljust" => SubSeq(vec.out.s, 1, Len(vec.in.s)) = vec.in.s)
-               /\ (vec.f = "rjust" => SubSeq(vec.out.s, Len(vec.out.s) - Len(vec.in.s) + 1, Len(vec.out.s)) = vec.in.s)
+               /\ Len(vec.out.s) = Max2(Len(StrOf(vec.in)), IntOf(vec.arg))
+               /\ IsSubSeqContig(StrOf(vec.in), vec.out.s)
+               /\ Cardinality({i \in 1..Len(vec.out.s) : vec.out.s[i] = " "}) - Cardinality({i \in 1..Len(StrOf(vec.in)) : StrOf(vec.in)[i] = " "})
+                    = Max2(IntOf(vec.arg) - Len(StrOf(vec.in)), 0)
+               /\ (vec.f = "ljust" => SubSeq(vec.out.s, 1, Len(StrOf(vec.in))) = StrOf(vec.in))
+               /\ (vec.f = "rjust" => SubSeq(vec.out.s, Len(vec.out.s) - Len(StrOf(vec.in)) + 1, Len(vec.out.s)) = StrOf(vec.in))
           [] vec.f = "truncatechars" -> (IntOf(vec.arg) > 0 => (Len(vec.out.s) <= Max2(IntOf(vec.arg), Min2(Len(vec.in.s), IntOf(vec.arg))) /\ (Len(vec.in.s) <= IntOf(vec.arg) => vec.out.s = vec.in.s)))
           [] vec.f = "floatformat" ->      \* exactly |n| places after the point (none, and no point, for 0); a whole number only when trimmed
                (vec.out.k = "str" =>
